@@ -76,6 +76,10 @@ class Sym(Val):
         return 'Sym(%s)' % self.text
 
 
+def _is_const(v):
+    return isinstance(v, Const) or (isinstance(v, ListV) and all(_is_const(e) for e in v.elems))
+
+
 class Bytes(Val):
     """Concatenation of items.  Items are tuples:
        ('C', bytes) ('INT', width, text) ('BYTE', text) ('SYM', text) ('SLICE', inner_render, lo, hi)
@@ -121,11 +125,12 @@ class DictV(Sym):
 
     def lookup(self, key):
         """-> value Val, None when the key is certainly absent, or False when undecidable."""
-        if not isinstance(key, Const):
+        if not _is_const(key):
             return False
         for k, v in self.pairs:
             try:
-                if k.value == key.value:
+                if (k.value == key.value) if isinstance(k, Const) and isinstance(key, Const) else \
+                        (not isinstance(k, Const) and not isinstance(key, Const) and render(k) == render(key)):      # constant tuples
                     return v
             except Exception:
                 return False
@@ -477,6 +482,7 @@ class State(object):
         self.events = []     # ordered mixed events: ('call'|'store'|'yield'|'raise'|'return'|'del', ...)
         self.hashes = []     # (alg, items, lineno) for every digest taken on this path
         self.bound = {}      # canonical bound-variable name ($k) -> text of the collection it ranges over
+        self.filters = {}    # canonical bound-variable name ($k) -> filter text fused into its iteration (`for x in (y for y in C if f)`)
         self.loops = {}      # $k of a summarised loop -> (iterable text incl. fused filter, [(facts taken, {local: value}, new calls, status)])
 
     def fork(self):
@@ -489,6 +495,7 @@ class State(object):
         s.events = list(self.events)
         s.hashes = list(self.hashes)
         s.bound = dict(self.bound)
+        s.filters = dict(self.filters)
         s.loops = dict(self.loops)
         s.ret = self.ret
         s.raised = self.raised
@@ -983,6 +990,8 @@ class Frame(object):
             else:
                 vartext = self._assign_loopvars(target, st, node, self._bname(node))
             st.bound[self._bname(node)] = colltext.split(' if ')[0]       # the collection; a fused filter stays in the EACH text
+            if ' if ' in colltext:
+                st.filters[self._bname(node)] = colltext.split(' if ', 1)[1]
         nyield = len(st.yields)
         entry_env = {k: render(v) for k, v in st.env.items() if '.' not in k and '[' not in k} if target is not None else {}
         body = self.block(node.body, st)
@@ -1149,6 +1158,8 @@ class Frame(object):
         t = self.cond_text(test, st)
         if t in self.sc.axioms:
             return self.sc.axioms[t]
+        if t in ('True', 'False'):           # the test evaluated to a decided boolean (e.g. a scenario fact answered in value position)
+            return t == 'True'
         if self.sc.oracle is not None and not isinstance(test, ast.BoolOp) and \
                 not (isinstance(test, ast.UnaryOp) and isinstance(test.op, ast.Not)):
             o = self.sc.oracle(t)
@@ -1251,7 +1262,7 @@ class Frame(object):
             if isinstance(r, Const) and r.value is None:
                 if isinstance(l, Const):
                     res = l.value is None
-                elif isinstance(l, (Bytes, ListV, Obj, Hasher, ClassV, FuncV)) or (isinstance(l, Sym) and l.nonnull):
+                elif isinstance(l, (Bytes, ListV, Obj, Hasher, ClassV, FuncV, DictV)) or (isinstance(l, Sym) and l.nonnull):
                     res = False
                 else:
                     return None
@@ -1408,7 +1419,7 @@ class Frame(object):
             ci = base.ci
             av = ci.find_attr(node.attr)
             if av is not None:
-                cv = self._class_collection(ci, node.attr, av, st)
+                cv = self._class_collection(ci, node.attr, av, st, text=path)
                 if cv is not None:
                     return cv
                 members = None
@@ -1443,7 +1454,7 @@ class Frame(object):
             # class-level constant attribute (e.g. __pubfields__) seen through the instance
             av = cls.find_attr(node.attr)
             if av is not None and cls.find_prop(node.attr) is None:
-                cv = self._class_collection(cls, node.attr, av, st)
+                cv = self._class_collection(cls, node.attr, av, st, text=normalise_path(path))
                 if cv is not None:
                     return cv
                 try:
@@ -1464,7 +1475,7 @@ class Frame(object):
                         return r
         return Sym(normalise_path(path))
 
-    def _class_collection(self, cls, name, av, st):
+    def _class_collection(self, cls, name, av, st, text=None):
         """Class-level NAME = {A, B} / frozenset({...}) / (A, B) of enum members, seen through an instance or the class."""
         inner = av
         if isinstance(av, ast.Call) and dotted(av.func) in ('frozenset', 'set', 'tuple', 'list') and len(av.args) == 1:
@@ -1558,7 +1569,7 @@ class Frame(object):
                     pairs.extend(vv.pairs)          # {**d, ...} with a known d
                 else:
                     pairs.append((self.ev(k, st, quiet=True), vv))
-            if all(isinstance(k, Const) for k, _ in pairs):
+            if all(_is_const(k) for k, _ in pairs):
                 return DictV(text, pairs)
         return Sym(text)
 
@@ -1714,10 +1725,16 @@ class Frame(object):
                     break
             else:
                 return vals[-1]
-        if d is not None:
-            return Const(d)
+        if d is not None and (not self.sc.extended or
+                              all(isinstance(v, Const) and isinstance(v.value, bool) for v in vals if self.truth(v) is not None)):
+            return Const(d)          # (extended scenarios: as a value `x or <truthy object>` is x-or-the-object, not True)
         op = ' or ' if isinstance(node.op, ast.Or) else ' and '
-        r = Sym('(%s)' % op.join(render(v) for v in vals))
+        k = 0
+        while self.sc.extended and k < len(vals) - 1 and self.truth(vals[k]) is not None:
+            k += 1          # leading operands of known (neutral) truth do not contribute to the value: `False or x` is x
+        if k and len(vals) - k == 1:
+            return vals[k]
+        r = Sym('(%s)' % op.join(render(v) for v in vals[k:]))
         r.skel = self.cond_skel(node, st)
         return r
 
@@ -1742,6 +1759,16 @@ class Frame(object):
         d = self.decide(node, st) if len(node.ops) == 1 else None
         if d is not None:
             return Const(d)
+        if len(node.ops) > 1:
+            # a < b < c is (a < b) and (b < c): decided when every link is
+            links, left = [], node.left
+            for op, c in zip(node.ops, node.comparators):
+                links.append(self._compare(ast.Compare(left=left, ops=[op], comparators=[c]), st))
+                left = c
+            if any(x is False for x in links):
+                return Const(False)
+            if all(x is True for x in links):
+                return Const(True)
         parts = [self.text(node.left, st)]
         for op, c in zip(node.ops, node.comparators):
             parts.append(OPS[type(op)])
@@ -1832,7 +1859,9 @@ class Frame(object):
                     return Const(f(a, b))
             except Exception:
                 pass
-        return Sym('(%s %s %s)' % (render(l), OPS[type(op)], render(r)))
+        lt, rt = render(l), render(r)
+        lt, rt = ['(%s)' % t if t.startswith('not ') else t for t in (lt, rt)]       # `a & (not b)` must not render as `a & not b`
+        return Sym('(%s %s %s)' % (lt, OPS[type(op)], rt))
 
     def ev_Subscript(self, node, st):
         base = self.ev(node.value, st)
@@ -1871,7 +1900,7 @@ class Frame(object):
                 return Bytes([mk_slice(merge_consts(base.items), lo, hi)])
             return Bytes([mk_slice(render(base), lo, hi)])
         idx = self.ev(sl, st)
-        if isinstance(base, DictV) and self.sc.extended:
+        if isinstance(base, DictV) and self.sc.extended and isinstance(getattr(node, 'ctx', None), ast.Load):
             hit = base.lookup(idx)
             if hit is not None and hit is not False:
                 return hit
@@ -2106,6 +2135,9 @@ class Frame(object):
             if fname in ('hashes.Hash',) and args:
                 record(fname)
                 return Hasher(render(args[0]))
+            if fname == 'itertools.chain' and args and not kwargs and all(isinstance(a, ListV) for a in args):
+                record(fname)
+                return ListV([e for a in args for e in a.elems], 'list')
             # super().m / super(K, self).m
             if isinstance(func.value, ast.Call) and dotted(func.value.func) == 'super':
                 tgt = self._resolve_super(func.value, meth, st)
@@ -2229,7 +2261,11 @@ class Frame(object):
                 except Exception:
                     pass
             if n == 'isinstance' and len(node.args) == 2:
-                d = self._isinstance(node.args[0], node.args[1], st)
+                d = None
+                if self.sc.oracle is not None:       # a scenario fact about this test holds in value position too
+                    d = self.sc.oracle('isinstance(%s)' % ', '.join(render(a) for a in args))
+                if d is None:
+                    d = self._isinstance(node.args[0], node.args[1], st)
                 if d is not None:
                     return Const(d)
             if n == 'range':
@@ -2289,6 +2325,9 @@ class Frame(object):
                 # divmod(a, b) == (a // b, a % b)
                 record(n)
                 return ListV([self.binop(ast.FloorDiv(), args[0], args[1]), self.binop(ast.Mod(), args[0], args[1])], 'tuple')
+            if n in ('iter', 'list', 'tuple') and len(args) == 1 and isinstance(args[0], ListV) and not kwargs:
+                record(n)
+                return ListV(list(args[0].elems), 'tuple' if n == 'tuple' else 'list')
             if n == 'reversed' and len(args) == 1 and isinstance(args[0], ListV):
                 rev = []
                 for e in reversed(args[0].elems):
@@ -2315,6 +2354,9 @@ class Frame(object):
             record(n)
             return Sym('%s(%s)' % (n, self._argtext(args, kwargs)))
         fv = self.ev(func, st, quiet=True)
+        if isinstance(fv, ClassV):          # (a or B)() / (A if c else B)() once the callee expression is decided to be a class
+            record(fv.ci.name)
+            return self._construct(fv.ci, args, kwargs, st, node)
         if isinstance(fv, (LambdaV, FuncV)):
             record(render(fv))
             r = self._maybe_inline(fv.fi, None, args, kwargs, st, node, closure=fv.closure_env, force=True)
@@ -2368,6 +2410,9 @@ class Frame(object):
         at = self._argtext(args, kwargs)
         base = render(recv)
         # transparent wrappers: bytes(x) etc. are handled elsewhere; here a few text-preserving methods
+        if '%s.%s(%s)' % (base, meth, at) in self.sc.unroll:
+            # scenario fact: this collection has exactly these elements (also when it is not directly a loop's iterable)
+            return ListV(list(self.sc.unroll['%s.%s(%s)' % (base, meth, at)]), 'list')
         if meth == '__bytearray__' or meth == '__bytes__':
             return Bytes([('SYM', '%s.__bytearray__()' % base)])
         if meth == 'hasher' and not args:
@@ -2464,11 +2509,16 @@ class Frame(object):
         frame_st.events = st.events
         frame_st.hashes = st.hashes
         frame_st.bound = st.bound
+        frame_st.filters = st.filters
         fr = Frame(self.I, fi, self.depth + 1)
         outs = fr.block(fi.node.body, frame_st)
         rets = [(s, status) for s, status in outs if status in ('return', 'normal')]
         if not rets:
             return Sym('<raises %s>' % fi.qualname)
+        if len(rets) == 1 and any(isinstance(n, (ast.Yield, ast.YieldFrom)) for n in _preorder(fi.node)) and \
+                not any(isinstance(y, Sym) and y.text.startswith(('EACH(', 'ALT(', '*')) for y in rets[0][0].yields):
+            # calling a generator function whose yields are all enumerated: the value is the sequence it produces
+            return ListV(list(rets[0][0].yields), 'list')
         vals = []
         for s, status in rets:
             v = s.ret if status == 'return' else Const(None)
